@@ -161,6 +161,33 @@ func GenProperty(w *Writer, prop string, t Tier, seed uint64) error {
 				}
 				return e, g.Start
 			}},
+			{fam: "reverse-multi", doc: docDefault, gen: func(g *ExprGen, d *Doc, r *Rng) (Expr, int) {
+				// a reverse-axis step WITH a predicate that keeps several nodes, from several context
+				// nodes: the per-context-node results are descending runs that overlap
+				g.Cfg.Preds = 0
+				base := Expr(Step{Base: Step{Base: Root{}, Axis: "descendant-or-self", Test: Test{Kind: "node"}}, Axis: "child",
+					Test: Pick(r, []Test{{Kind: "any"}, {Kind: "node"}, {Kind: "text"}, {Kind: "name", A: Pick(r, g.Cfg.Names)}})})
+				if r.Chance(1, 4) {
+					base = g.NodeSet(1, false)
+				}
+				pos := Call{Base: Ctx{}, Name: "position"}
+				pred := Pick(r, []Expr{
+					Bin{Op: "le", L: pos, R: NumLit{Text: Pick(r, []string{"2", "3"})}},
+					Bin{Op: "ne", L: pos, R: NumLit{Text: "1"}},
+					Bin{Op: "ge", L: pos, R: NumLit{Text: "1"}},
+					Bin{Op: "ne", L: pos, R: Call{Base: Ctx{}, Name: "last"}},
+					Step{Base: Ctx{}, Axis: "self", Test: Test{Kind: "node"}},
+				})
+				e := Expr(Step{Base: base, Axis: Pick(r, []string{"ancestor", "ancestor-or-self", "preceding", "preceding-sibling"}),
+					Test: Pick(r, []Test{{Kind: "any"}, {Kind: "node"}}), Preds: []Expr{pred}})
+				switch r.Intn(4) {
+				case 0:
+					return Call{Base: Ctx{}, Name: "count", Args: []Expr{e}}, 0
+				case 1:
+					return Bin{Op: "union", L: e, R: g.NodeSet(1, false)}, 0
+				}
+				return e, 0
+			}},
 			{fam: "union-count", doc: docDefault, gen: func(g *ExprGen, d *Doc, r *Rng) (Expr, int) {
 				g.Cfg.Preds = 1
 				a, b := g.NodeSet(1, false), g.NodeSet(1, false)
@@ -287,7 +314,7 @@ func GenProperty(w *Writer, prop string, t Tier, seed uint64) error {
 		return runEvalPlans(w, r, t, []evalPlan{
 			{axes: SimpleAxes, fam: "strfn", doc: docDefault, gen: func(g *ExprGen, d *Doc, r *Rng) (Expr, int) {
 				g.Cfg.Texts = []string{"", "a", "abc", "12345", "é𝄞x", "a  b \t c", " a ", " x ", "--aaa--", "é", "1999/04/01", "/", "ab", "ba", " ", "ABC"}
-				g.Cfg.Numbers = []string{"0", "1", "2", "3", "1.5", "2.5", "0.5", "10", "100", "2.6"}
+				g.Cfg.Numbers = []string{"0", "1", "2", "3", "1.5", "2.5", "0.5", "10", "100", "2.6", "9223372036854775808"}
 				switch r.Intn(10) {
 				case 0, 1, 2:
 					args := []Expr{g.Str(0), strArgNum(g, r)}
@@ -299,6 +326,20 @@ func GenProperty(w *Writer, prop string, t Tier, seed uint64) error {
 					return Call{Base: Ctx{}, Name: "translate", Args: []Expr{g.Str(0), g.Str(0), g.Str(0)}}, 0
 				case 4:
 					return Call{Base: Ctx{}, Name: "string-length", Args: []Expr{g.Str(1)}}, 0
+				case 5:
+					// the zero-argument forms use the context node, whatever its kind
+					fn := Pick(r, []string{"string-length", "normalize-space", "string"})
+					nodes := Step{Base: Step{Base: Root{}, Axis: "descendant-or-self", Test: Test{Kind: "node"}},
+						Axis: Pick(r, []string{"attribute", "attribute", "namespace", "child", "self"}), Test: Pick(r, []Test{{Kind: "any"}, {Kind: "node"}, {Kind: "text"}, {Kind: "comment"}, {Kind: "pi"}})}
+					switch r.Intn(3) {
+					case 0:
+						nodes.Preds = []Expr{Bin{Op: Pick(r, []string{"gt", "eq", "le"}), L: Call{Base: Ctx{}, Name: "string-length"}, R: NumLit{Text: Pick(r, []string{"0", "1", "2", "3"})}}}
+						return Call{Base: Ctx{}, Name: "count", Args: []Expr{nodes}}, 0
+					case 1:
+						nodes.Preds = []Expr{Bin{Op: "eq", L: Call{Base: Ctx{}, Name: fn}, R: Call{Base: Ctx{}, Name: fn, Args: []Expr{Ctx{}}}}}
+						return Call{Base: Ctx{}, Name: "count", Args: []Expr{nodes}}, 0
+					}
+					return Call{Base: nodes, Name: fn}, 0
 				}
 				return g.Str(2), g.Start
 			}},
